@@ -33,6 +33,12 @@ fn parts(t: Tier) -> Vec<Part> {
 }
 
 fn gen_suffix(t: &mut Tape, cx: &mut Cx) -> Vec<u8> {
+    if t.chance(1) {
+        // long enough for message + suffix to reach 65 536 octets and a little more
+        cx.class("suffix: about 64 KiB");
+        let n = 65536 - t.below(1200) + t.below(40);
+        return (0..n).map(|i| (i as u8) ^ 0x99).collect();
+    }
     match t.below(5) {
         0 => {
             cx.class("suffix: empty");
